@@ -1788,6 +1788,10 @@ class Tensor(object):
             m = 2
 
         if factor is None:
+            if self.dim() == 1 and self.cores[0].dim() == m:
+                # A single CP factor: both of its bonds close, i.e. the rank index is summed out
+                self.cores[0] = torch.sum(self.cores[0], dim=-1)[..., None, :, None]
+                return
             if self.cores[0].dim() == m:
                 if self.batch:
                     self.cores[0] = self.cores[0][:, None, ...]
